@@ -117,6 +117,8 @@ type Engine struct {
 	stdout         []string
 	unwinding      bool
 	panicWhere     string
+	Input          string
+	Outputs        []string
 }
 
 type Stats struct {
@@ -232,6 +234,7 @@ func (e *Engine) resetPath(prefix []Decision) {
 	e.wgs, e.addrs, e.stdout = nil, nil, nil
 	e.nondetUsed = nil
 	e.unwinding, e.panicWhere = false, ""
+	e.Outputs = nil
 	// fresh term table per path keeps memory bounded; variable names are
 	// deterministic per path so solver declarations can be reused.
 	e.tt = NewTermTable()
